@@ -282,6 +282,20 @@ func Point(label string) {
 	}
 }
 
+// PointObj is a scheduling point for an operation on a named shared object (e.g. a file path):
+// operations on the same object are ordered in the happens-before fingerprint.
+//
+//go:norace
+func PointObj(label string, obj string) {
+	if s := Active(); s != nil {
+		t := s.running
+		s.park(t, OpPoint, nil, label)
+		h := s.oh("obj:" + obj)
+		t.H = mix(t.H, *h)
+		*h = mix(*h, t.H)
+	}
+}
+
 // ParkFlag parks the running thread until *flag != 0
 //
 //go:norace
